@@ -15,7 +15,7 @@ RULE = ('(group, op, X, a) with X a valid group element (unit quaternion up to r
         'Jinvp = (sum_n ad^n/(n+1)!)^-1 p at an independent Log X, Sim3 within the documented truncation) and tied to the model; batches: '
         'broadcastable shape pairs x memory layouts, item by item against single-element calls; judged calls are second calls on their object; '
         'arguments snapshotted; non-trivial = a != 0; distinct by value; tolerances 256 eps (rotation/scale, Adj), 64 sqrt(eps) (translation block), '
-        'Jinvp oracle 1024 eps outside the small-angle zone')
+        'Jinvp oracle (1024 + 16 (1 + |t|) / theta^2) eps, at most 64 sqrt(eps)')
 
 
 def tol_group(g, out, eps):
@@ -223,13 +223,18 @@ def jinvp_oracle(g, X, p, got, eps):
     exact = np.linalg.solve(J, pv)
     gv = np.array(got, dtype=float)
     sc = max(1.0, float(np.abs(exact).max()), float(np.abs(gv).max()))
-    # rounding allowance: K_JAC eps where the closed forms are well conditioned (rotation angle of X zero or >= 0.05),
-    # the tie's K_SQRT sqrt(eps) in the small-angle zone where the coefficients of Jl_inv / calcQ cancel; plus the
-    # rounding of this float64 reference itself
+    # rounding allowance: K_JAC eps, plus what the cancelling closed-form coefficients of calcQ / Ws^-1 cost when the
+    # rotation angle theta (or the log-scale of Sim3) is small but non-zero: (theta^2 + 2 cos theta - 2) / (2 theta^4)
+    # carries an absolute error eps / theta^4 and multiplies terms of size theta^2 |t|, i.e. eps |t| / theta^2; capped by
+    # the tie's K_SQRT sqrt(eps); plus the rounding of this float64 reference itself
     t_, q_, s_ = split_elt(g, X)
     vn = math.sqrt(sum(float(v) ** 2 for v in q_[:3]))
-    theta = 2 * math.atan2(vn, abs(float(q_[3])))
-    rnd = (K_JAC * eps if (theta == 0.0 or theta >= 0.05) else K_SQRT * math.sqrt(eps)) * sc + 64 * 2.0 ** -52 * tmax * k * sc
+    z = 2 * math.atan2(vn, abs(float(q_[3])))
+    if g == 'Sim3' and float(s_) != 1.0:
+        z = min(z, abs(math.log(float(s_)))) if z > 0 else abs(math.log(float(s_)))
+    tn = max(abs(float(v)) for v in t_)
+    cancel = 16 * (1 + tn) / (z * z) if z > 0 else 0.0
+    rnd = min(K_SQRT * math.sqrt(eps), (K_JAC + cancel) * eps) * sc + 64 * 2.0 ** -52 * tmax * k * sc
     r = float(np.linalg.norm(A, 2))
     if g == 'Sim3':
         A2 = A @ A
